@@ -83,7 +83,7 @@ int main(int argc, const char **argv) {
         common_parent_path_length = length;
       }
     } else {
-      common_parent_path_length = strlen(mount) + 1;
+      common_parent_path_length = get_common_parent_path_length(mount, mount);
     }
 
     free(previous_mount);
